@@ -43,7 +43,7 @@ func (g *Gen) randomOp() {
 	a := g.C.App
 	switch g.R.Weighted([]int{6, 8, 5, 8, 6, 5, 3, 2, 2}) {
 	case 0: // trading
-		g.trade(uint64(1 + g.R.Intn(2)))
+		g.trade(uint64(1 + g.R.Intn(3)))
 	case 1: // vaults
 		vs := a.VaultKeeper.GetVaults(ctx)
 		switch c := g.R.Intn(7); {
